@@ -6,8 +6,10 @@ import (
 	"io"
 	"os"
 	"runtime"
+	"strings"
 	"time"
 
+	"verifharness/fakemc"
 	"verifharness/gal"
 	"verifharness/rig"
 	"verifharness/stack"
@@ -21,6 +23,11 @@ type dCase struct {
 	Proto  string      `json:"proto"`
 	Reqs   []stack.Req `json:"reqs"`
 	Cut    int         `json:"cut"` // number of bytes of the encoded stream that are sent
+	// Full: the client closes both directions (it stops reading too), so the server's reply writes
+	// fail; only the release of resources is judged then (what was executed depends on timing)
+	Full bool `json:"full,omitempty"`
+	// Pre: keys present (value "pre-"+key, never expiring) in both tiers before the client connects
+	Pre []string `json:"pre,omitempty"`
 }
 
 type halfCloser interface{ CloseWrite() error }
@@ -29,6 +36,11 @@ func runDisconnect(c dCase) (sent, out []byte, l1, l2 string, problems []string)
 	b := stack.NewBackends()
 	b.L1.SetNow(cNow)
 	b.L2.SetNow(cNow)
+	for _, k := range c.Pre {
+		ent := fakemc.Entry{Flags: 7, Value: []byte("pre-" + k), Deadline: -1}
+		b.L1.Put(k, ent)
+		b.L2.Put(k, ent)
+	}
 	var stream []byte
 	for _, r := range c.Reqs {
 		if c.Proto == "text" {
@@ -42,15 +54,20 @@ func runDisconnect(c dCase) (sent, out []byte, l1, l2 string, problems []string)
 	}
 	sent = stream[:c.Cut]
 	g0 := runtime.NumGoroutine()
+	rg0 := rendGoroutines()
 	base1, base2 := b.L1.OpenConns(), b.L2.OpenConns()
 	cn := stack.Dial(b, stack.Config{Orca: c.Deploy, Locked: c.Locked, MultiRd: true, L1: "std", Proto: c.Proto})
 	raw := cn.Raw()
 	raw.Write(sent)
-	raw.(halfCloser).CloseWrite()
+	if c.Full {
+		raw.Close()
+	} else {
+		raw.(halfCloser).CloseWrite()
+	}
 	// read everything until the server closes
 	raw.SetReadDeadline(time.Now().Add(10 * time.Second))
 	buf := make([]byte, 65536)
-	for {
+	for !c.Full {
 		n, err := raw.Read(buf)
 		out = append(out, buf[:n]...)
 		if err != nil {
@@ -69,15 +86,20 @@ func runDisconnect(c dCase) (sent, out []byte, l1, l2 string, problems []string)
 	// backend connections released, goroutines gone
 	ok := false
 	for i := 0; i < 200; i++ {
-		if b.L1.OpenConns() == base1 && b.L2.OpenConns() == base2 && runtime.NumGoroutine() <= g0+1 {
+		if b.L1.OpenConns() == base1 && b.L2.OpenConns() == base2 && runtime.NumGoroutine() <= g0+1 && len(rendGoroutines()) <= len(rg0) {
 			ok = true
 			break
 		}
 		time.Sleep(5 * time.Millisecond)
 	}
 	if !ok {
-		problems = append(problems, fmt.Sprintf("resources not released: L1 conns %d (base %d), L2 conns %d (base %d), goroutines %d (base %d)",
-			b.L1.OpenConns(), base1, b.L2.OpenConns(), base2, runtime.NumGoroutine(), g0))
+		rg := rendGoroutines()
+		where := ""
+		if len(rg) > len(rg0) {
+			where = "; e.g. " + rg[len(rg)-1]
+		}
+		problems = append(problems, fmt.Sprintf("resources not released: L1 conns %d (base %d), L2 conns %d (base %d), goroutines %d (base %d), goroutines running rend code %d (base %d)%s",
+			b.L1.OpenConns(), base1, b.L2.OpenConns(), base2, runtime.NumGoroutine(), g0, len(rg), len(rg0), where))
 	}
 	l1, l2 = stack.DumpGallina(b.L1), stack.DumpGallina(b.L2)
 	// no key stays locked; the server keeps accepting: a fresh connection works on the same keys
@@ -98,6 +120,24 @@ func runDisconnect(c dCase) (sent, out []byte, l1, l2 string, problems []string)
 	}
 	fc.Close()
 	return
+}
+
+// rendGoroutines lists (by their innermost rend frame) the goroutines that are executing code of
+// the repository under test.
+func rendGoroutines() []string {
+	buf := make([]byte, 1<<20)
+	buf = buf[:runtime.Stack(buf, true)]
+	var out []string
+	for _, g := range strings.Split(string(buf), "\n\n") {
+		if i := strings.Index(g, "github.com/netflix/rend/"); i >= 0 {
+			j := strings.IndexAny(g[i:], "(\n")
+			if j < 0 {
+				j = len(g) - i
+			}
+			out = append(out, g[i:i+j])
+		}
+	}
+	return out
 }
 
 func c15(e *env) {
@@ -130,6 +170,14 @@ func c15(e *env) {
 				{{Kind: "set", Key: k("a"), Data: []byte("v"), Opaque: o(1)}, {Kind: "quit", Opaque: o(2)}, {Kind: "set", Key: k("a"), Data: []byte("after-quit"), Opaque: o(3)}},
 				{{Kind: "version", Opaque: o(1)}, {Kind: "stat", Opaque: o(2)}, {Kind: "noop", Opaque: o(3)}},
 			}
+			// several hits in one multi-key get (each is a separate reply write)
+			multi := []stack.Req{{Kind: "set", Key: k("a"), Data: []byte("v"), Opaque: o(1)}, {Kind: "set", Key: k("bb"), Data: []byte("w"), Opaque: o(2)}}
+			if proto == "bin" {
+				multi = append(multi, stack.Req{Kind: "get", Items: []stack.GItem{{Key: k("a"), Opaque: 3, Quiet: true}, {Key: k("bb"), Opaque: 4, Quiet: true}, {Key: k("a"), Opaque: 5, Quiet: true}}, NoopEnd: true, NoopOpq: 6})
+			} else {
+				multi = append(multi, stack.Req{Kind: "get", Items: []stack.GItem{{Key: k("a")}, {Key: k("bb")}, {Key: k("a")}}})
+			}
+			ss = append(ss, multi)
 			if proto == "bin" {
 				ss = append(ss,
 					[]stack.Req{{Kind: "set", Key: k("a"), Data: []byte("v"), Opaque: 1}, {Kind: "get", Items: []stack.GItem{{Key: k("a"), Opaque: 2, Quiet: true}, {Key: k("bb"), Opaque: 3, Quiet: true}}, NoopEnd: true, NoopOpq: 4}},
@@ -157,6 +205,42 @@ func c15(e *env) {
 						n += len(q.EncodeBin())
 					}
 				}
+				// full close (reply writes fail): request boundaries +-1 and every 5th offset
+				// (thorough: every offset), three configurations (thorough: six)
+				bounds := map[int]bool{}
+				off := 0
+				for _, q := range ss {
+					if proto == "text" {
+						off += len(q.EncodeText())
+					} else {
+						off += len(q.EncodeBin())
+					}
+					bounds[off-1], bounds[off], bounds[off+1] = true, true, true
+				}
+				fcfs := []cf{{"l1only", false}, {"l1l2", false}, {"l1only", true}}
+				if thorough {
+					fcfs = cfs
+				}
+				for _, c := range fcfs {
+					for cut := 1; cut <= n; cut++ {
+						if thorough || bounds[cut] || cut%5 == 0 {
+							cases = append(cases, dCase{Deploy: c.deploy, Locked: c.locked, Proto: proto, Reqs: ss, Cut: cut, Full: true})
+						}
+					}
+					// the same with every suffix of the stream on pre-populated keys: the first
+					// failing reply write is then that of each command in turn
+					for i := 1; i < len(ss); i++ {
+						m := 0
+						for _, q := range ss[i:] {
+							if proto == "text" {
+								m += len(q.EncodeText())
+							} else {
+								m += len(q.EncodeBin())
+							}
+						}
+						cases = append(cases, dCase{Deploy: c.deploy, Locked: c.locked, Proto: proto, Reqs: ss[i:], Cut: m, Full: true, Pre: []string{"a", "bb"}})
+					}
+				}
 				for ci, c := range cfs {
 					for cut := 0; cut <= n; cut++ {
 						if !thorough && ci > 0 && cut%3 != r.Intn(3) {
@@ -172,6 +256,11 @@ func c15(e *env) {
 		sent, out, l1, l2, problems := runDisconnect(c)
 		if len(problems) > 0 {
 			w.Fail(rig.GoFailure{Kind: "counterexample", What: "client disconnect not cleaned up: " + problems[0], Input: c, Detail: fmt.Sprint(problems)})
+		}
+		if c.Full {
+			w.Count("full-close proto=" + c.Proto)
+			w.Count(fmt.Sprintf("full-close config=%s/locked=%v", c.Deploy, c.Locked))
+			continue // resources only: which replies were written before the close is a matter of timing
 		}
 		p := "Bin"
 		if c.Proto == "text" {
@@ -191,7 +280,7 @@ func c15(e *env) {
 			gal.Bytes(sent), gal.Bytes(out), l1, l2), Nontrivial: c.Cut > 0 && len(sent) > 0, Tags: tags})
 	}
 	w.Res.Exhaustive = true
-	w.Res.Rule = "representative request streams (every command, pipelines, quiet batches, quit in the middle, multi-line values; text and binary) cut at every byte offset (quick: all offsets for one configuration, a third for the others; thorough: all offsets x 6 configurations): the client sends the prefix, half-closes and reads until the server closes; observed: bytes received, server loop ended, backend connections and goroutines back to base, a fresh connection can touch the same keys; received bytes and backend contents are compared with the byte-level connection model; non-trivial = non-empty prefix"
+	w.Res.Rule = "representative request streams (every command, pipelines, quiet batches, quit in the middle, multi-line values; text and binary) cut at every byte offset (quick: all offsets for one configuration, a third for the others; thorough: all offsets x 6 configurations): the client sends the prefix, half-closes and reads until the server closes; observed: bytes received, server loop ended, backend connections and goroutines back to base, a fresh connection can touch the same keys; received bytes and backend contents are compared with the byte-level connection model; in addition full closes (client stops reading too, reply writes fail) at request boundaries +-1 and every 5th offset (thorough: every offset), judged on resource release only (counted under full-close, not among the cases); non-trivial = non-empty prefix"
 	if err := w.Finish([]string{"base.Bytes", "base.Harness", "spec.MapSpec", "orca.Types", "proto.Resp", "checks.Check01", "checks.Check15"}, "case15", "check15"); err != nil {
 		rig.Die("%v", err)
 	}
